@@ -34,7 +34,9 @@ META = dict(
                "correspondence but not by the oracle (family 'shadow'): a dynamically created class whose module+qualname "
                "resolves to a different object (SecurityError by design of C20's gate, or loaded as the other class).",
     rule="case = exception graph (1..6 nodes: class kind, argument kinds, args override, unpicklable attribute, raised or not, "
-         "cause, context, suppress) run through the three encodings; non-trivial iff depth >= 2 or a non-trivial class kind "
+         "cause, context, suppress) run through the three encodings; family 'eq': classes with value-based __eq__ (hand-written "
+         "with / without __hash__, always True, raising, @dataclass, local, dynamic) and a path on which two DISTINCT nodes are "
+         "twins (same class, same arguments - equal by ==, not a back-link); non-trivial iff depth >= 2 or a non-trivial class kind "
          "(anything but a plain builtin) or argument kind (anything but a JSON-native scalar) or a shared node / cycle; "
          "distinct by the canonical JSON of the case",
     trusted_base=["model: coq/theories/ExcSer.v (hand-written transcription of taskiq/serialization.py and the error field "
@@ -59,7 +61,11 @@ FIXED = ["UnicodeDecodeError", "JSONDecodeError", "NoResultError", "TaskiqResult
 SHADOW = ["ShadowFn", "ShadowInst", "ShadowExc", "ShadowTwoPos"]
 MIXIN = ["LocalMixin", "LocalMixinArgs", "DynMixin", "ModMixin"]      # finding D10 (repaired in /repo 743840e)
 FALSY = ["FalsyLen", "FalsyBool"]     # finding D11 (known): corpus replay only, never generated, not in the model
-ARITY = {"KwOnly": (1, 1), "TwoPos": (2, 2), "SubTwoPos": (2, 2), "LocalSubTwoPos": (2, 2), "ExtraPos": (2, 2),
+# classes with VALUE-based equality / unusual hashing (family "eq"): two distinct exception objects may compare equal,
+# comparing may raise, hashing may be impossible - the cycle guard must still go by object identity
+EQCLS = ["EqHash", "EqNoHash", "EqTrue", "EqRaises", "SubEqVal", "DataExc", "DataHashExc", "LocalEq", "LocalData", "DynEq",
+         "DynEqHere"]
+ARITY = {"DataExc": (2, 2), "DataHashExc": (1, 1), "LocalData": (1, 1), "KwOnly": (1, 1), "TwoPos": (2, 2), "SubTwoPos": (2, 2), "LocalSubTwoPos": (2, 2), "ExtraPos": (2, 2),
          "Rewrites": (1, 2), "SubRewrites": (1, 2)}
 ARITY.update({k: (0, 0) for k in FIXED})
 
@@ -141,6 +147,37 @@ def gen_case(r, shadow=False, mixin=True):
             else:
                 s["context"], s["suppress"] = i + 1, False
     return dict(nodes=nodes, family="shadow" if shadow else "main")
+
+
+def gen_eq_case(r):
+    """family "eq": a chain 0 -> 1 -> .. -> d (cause or unsuppressed context, d = 1..3 below the first twin) on which two
+    DISTINCT nodes p < q are twins - same class with value-based equality, same argument kinds, so that the two objects
+    usually compare equal although neither link is a back-link. Every other node / link stays random (other classes,
+    real back-links to the path, shared nodes, suppressed contexts), a third of the other nodes are of equality classes too."""
+    n = r.choice([2, 2, 3, 3, 4, 4, 5, 6])
+    nodes = [gen_node(r, n, False, False) for _ in range(n)]
+    for s in nodes:
+        if r.random() < .33:
+            retype(r, s, r.choice(EQCLS))
+    q = r.randint(1, min(3, n - 1)) if r.random() < .8 else r.randint(1, n - 1)
+    p = r.randrange(q) if r.random() < .5 else 0
+    for i in range(q):                       # the path root .. q
+        if r.random() < .5:
+            nodes[i]["cause"] = i + 1
+        else:
+            nodes[i]["context"], nodes[i]["suppress"] = i + 1, False
+    retype(r, nodes[p], r.choice(EQCLS), native=r.random() < .7)
+    for k in ("cls", "args", "set_args", "ctor_n"):
+        nodes[q][k] = list(nodes[p][k]) if k == "args" else nodes[p][k]
+    if r.random() < .15:                     # near miss: same class, one argument differs
+        nodes[q]["args"] = nodes[q]["args"][:-1] + ["big"] if nodes[q]["args"] else nodes[q]["args"]
+    return dict(nodes=nodes, family="eq")
+
+
+def retype(r, s, cls, native=False):
+    lo, hi = ARITY.get(cls, (0, 3))
+    s["cls"], s["ctor_n"], s["set_args"] = cls, lo, False
+    s["args"] = [r.choice(A_NATIVE) if native or r.random() < .5 else gen_arg(r, False) for _ in range(r.randint(lo, hi))]
 
 
 def reach(case):
@@ -400,8 +437,37 @@ def graph_stats(rep, case, obs):
                 indeg[j] = indeg.get(j, 0) + 1
         if s.get("suppress") and s.get("context") is not None:
             rep.count("link:context_suppressed")
+    if case.get("family") == "eq":
+        eq_stats(rep, case, obs)
     rep.count("graph:shared_node", int(any(v > 1 for v in indeg.values())))
     rep.count("graph:cyclic", int(has_cycle(case)))
+
+
+def eq_stats(rep, case, obs):
+    """how often the new input kind really occurs: links (of the expected unfolding) to a node that is NOT on the path
+    but compares equal (real ==, measured by the driver) to a node that is"""
+    found = {}
+
+    def go(i, path, d):
+        s = case["nodes"][i]
+        p = path + (i,)
+        for what, j in (("cause", s.get("cause")), ("context", None if s.get("suppress") else s.get("context"))):
+            if j is None or j in p:
+                continue
+            if any(k in obs["nodes"][j].get("eq_nodes", []) for k in p):
+                found["eq:link_to_equal_distinct_node:" + what] = 1
+                found["eq:equal_distinct_depth:%d" % min(d + 1, 4)] = 1
+                found["eq:equal_distinct_class:" + case["nodes"][j]["cls"]] = 1
+                if i not in obs["nodes"][j].get("eq_nodes", []):
+                    found["eq:equal_to_non_parent_ancestor"] = 1
+            go(j, p, d + 1)
+    go(0, (), 0)
+    for k in found:
+        rep.count(k)
+    rep.count("eq:cases_with_equal_distinct_on_path", int(bool(found)))
+    rs = reach(case)
+    rep.count("eq:comparison_raises_reachable", int(any(obs["nodes"][i].get("eq_raises") for i in rs)))
+    rep.count("eq:unhashable_reachable", int(any(not obs["nodes"][i].get("hashable", True) for i in rs)))
 
 
 def has_cycle(case):
@@ -483,6 +549,9 @@ def run(ctx):
     rs = ctx.sub_rng("shadow")
     b2, _ = explore(ctx, rep, [gen_case(rs, shadow=True) for _ in range(ctx.n(200, 4000))], "shadow", use_oracle=False)
     broken = broken or b2
+    re_ = ctx.sub_rng("eq")
+    b3, _ = explore(ctx, rep, [gen_eq_case(re_) for _ in range(ctx.n(250, 6000))], "eq")
+    broken = broken or b3
     live = {k["signature"] for k in C.load_known() if k["property"] == "C19" and k["status"] == "known"}
     unexplained = [f for f in rep.failures if not any(p(f) for name, p in SIGNATURES.items() if name in live)]
     if (broken or any(not o["ok"] for o in rep.obligations)) and not unexplained:
